@@ -9,6 +9,21 @@
  *   isal_ref_invert_calls     - number of gf_invert_matrix calls so far
  */
 #include <string.h>
+#include <stdlib.h>
+
+/* ISAL_REF_VARIANT (environment, read once): a second library that is just as conformant to the documented interface -
+ *   1: gf_invert_matrix leaves its (documented: "destroyed") input filled with 0xEE instead of the identity; the 32-byte
+ *      expanded table of a coefficient keeps the coefficient in byte 0 and junk elsewhere (the table format is the
+ *      library's own business); ec_encode_data walks rows and bytes backwards;
+ *   2: gf_invert_matrix does not touch its input at all (a library is free to work on a copy).
+ * The adapters must work with every one of them. */
+static int variant(void)
+{
+    static int v = -1;
+    int x = __atomic_load_n(&v, __ATOMIC_RELAXED);
+    if (x < 0) { const char *e = getenv("ISAL_REF_VARIANT"); x = e ? atoi(e) : 0; __atomic_store_n(&v, x, __ATOMIC_RELAXED); }
+    return x;
+}
 
 int isal_ref_fail_invert_at = 0;
 long isal_ref_invert_calls = 0;
@@ -78,6 +93,8 @@ int gf_invert_matrix(unsigned char *in_mat, unsigned char *out_mat, const int n)
         __atomic_sub_fetch(&isal_ref_fail_invert_at, 1, __ATOMIC_RELAXED) == 0)
         return -1;
 
+    unsigned char copy[32 * 32], *orig_in = in_mat;
+    if (variant() == 2 && n <= 32) { memcpy(copy, in_mat, (size_t)n * (size_t)n); in_mat = copy; }
     for (i = 0; i < n * n; i++) out_mat[i] = 0;
     for (i = 0; i < n; i++) out_mat[i * n + i] = 1;
 
@@ -105,6 +122,7 @@ int gf_invert_matrix(unsigned char *in_mat, unsigned char *out_mat, const int n)
             }
         }
     }
+    if (variant() == 1) memset(orig_in, 0xEE, (size_t)n * (size_t)n);
     return 0;
 }
 
@@ -121,7 +139,8 @@ void ec_init_tables(int k, int rows, unsigned char *a, unsigned char *g_tbls)
 {
     for (int i = 0; i < rows; i++)
         for (int j = 0; j < k; j++) {
-            vect_mul_init(*a++, g_tbls);
+            if (variant() == 1) { memset(g_tbls, 0x5C, 32); g_tbls[0] = *a++; }
+            else vect_mul_init(*a++, g_tbls);
             g_tbls += 32;
         }
 }
@@ -130,6 +149,15 @@ void ec_encode_data(int len, int k, int rows, unsigned char *g_tbls,
                     unsigned char **data, unsigned char **coding)
 {
     __atomic_fetch_add(&isal_ref_encode_calls, 1, __ATOMIC_RELAXED);
+    if (variant() == 1) {
+        for (int l = rows - 1; l >= 0; l--)
+            for (int i = len - 1; i >= 0; i--) {
+                unsigned char s = 0;
+                for (int j = k - 1; j >= 0; j--) s ^= gf_mul(g_tbls[((size_t)l * (size_t)k + (size_t)j) * 32], data[j][i]);
+                coding[l][i] = s;
+            }
+        return;
+    }
     for (int l = 0; l < rows; l++) {
         for (int i = 0; i < len; i++) {
             unsigned char s = 0;
